@@ -8,7 +8,7 @@ NT = set("second-generation-after-consuming,evicted-while-consuming,progress-com
 
 
 class Eng(grp.GRPEngine):
-    MACROS = ["stable", "rebalance", "rebalance", "rebalance", "evict", "evict", "commitreject", "commitreject", "netfault", "stopmid", "leave"]
+    MACROS = ["stable", "rebalance", "rebalance", "rebalance", "evict", "evict", "commitreject", "commitreject", "netfault", "stopmid", "stopmid", "leave", "overlap", "overlap", "coordfault", "lookupfault"]
     MACRO_ONE_IN = 3
 
     def nontrivial(self):
